@@ -25,10 +25,11 @@ import translate_sql
 OUT = os.path.join(os.path.dirname(HERE), "lean", "Wormhole", "GeneratedSrv.lean")
 
 METHODS = [("Mailbox", "open"), ("Mailbox", "_touch"), ("Mailbox", "_add_message"), ("Mailbox", "close"),
+           ("AppNamespace", "_summarize_nameplate_and_store"), ("AppNamespace", "_summarize_mailbox_and_store"),
            ("AppNamespace", "_add_mailbox"), ("AppNamespace", "open_mailbox"),
            ("AppNamespace", "claim_nameplate"), ("AppNamespace", "release_nameplate")]
 # methods a translated method may call without being translated themselves (primitives of PySrv.callee0)
-PRIMITIVE = {("AppNamespace", "_summarize_nameplate_and_store"), ("AppNamespace", "_summarize_mailbox_and_store")}
+PRIMITIVE = {("AppNamespace", "_summarize_nameplate_usage"), ("AppNamespace", "_summarize_mailbox")}   # translate_summ.py
 SELF_ATTRS = ("_app_id", "_mailbox_id", "_usage_db")
 
 
@@ -116,6 +117,8 @@ class Fn:
                 return ".selfAttr %s" % lean_str(n.attr)
             if n.value.id in self.params and n.value.id not in self.assigned:
                 return ".msgField (.param %s) %s" % (lean_str(n.value.id), lean_str(n.attr))
+            if n.value.id in self.assigned and n.value.id not in self.dbalias and n.value.id not in self.sqlvars:
+                return ".attr (.var %s) %s" % (lean_str(n.value.id), lean_str(n.attr))
         if isinstance(n, ast.Subscript) and isinstance(n.slice, ast.Constant) and isinstance(n.slice.value, str):
             return ".field (%s) %s" % (self.expr(n.value), lean_str(n.slice.value))
         if isinstance(n, ast.Subscript) and src_of(n.value) == "self._mailboxes" and self.cls == "AppNamespace":
